@@ -16,6 +16,17 @@ import sys, os, re, json, time, subprocess, shutil, glob, hashlib, fcntl
 VERIF = os.path.dirname(os.path.dirname(os.path.abspath(__file__)))
 REPO = os.environ.get("VERIF_REPO", "/repo")
 COQ = os.path.join(VERIF, "coq")
+if REPO != "/repo":
+    # a run against a scratch copy of the repository (bin/mutate.sh) works on a private copy of the Coq tree, so that
+    # what it regenerates (coq/gen) or rebuilds cannot disturb concurrent checks of the real tree
+    import atexit
+    _priv = "/var/tmp/verif-coq-%d" % os.getpid()
+    shutil.rmtree(_priv, ignore_errors=True)
+    with open(os.path.join(COQ, ".lock"), "w") as _lf:
+        fcntl.flock(_lf, fcntl.LOCK_EX)
+        shutil.copytree(COQ, _priv, symlinks=True)
+    COQ = _priv
+    atexit.register(lambda: shutil.rmtree(_priv, ignore_errors=True))
 sys.path.insert(0, os.path.join(VERIF, "bin"))
 from props import PROPS  # noqa: E402
 
